@@ -236,12 +236,14 @@ pub struct CaseB {
     /// a hard error on the log fd (disk full under the log), `$-1` = the last write the undisturbed run makes there: the run may
     /// then fail; if it ends like the flag-free run, the log is complete
     pub log_hard: Option<String>,
+    /// the process runs in a working directory that was deleted under it; program and log are named by absolute paths
+    pub deleted_cwd: bool,
 }
 
 impl CaseB {
     pub fn to_json(&self) -> Value {
         json!({"engine": ENGINE_B, "program": self.spec.to_json(), "profile": self.profile.name(), "action": self.action, "size_mb": self.size_mb,
-               "log_path": self.log_path, "clock": self.clock, "plan": self.plan, "stale_log": self.stale_log, "hash_seed": self.hash_seed, "stdout_fault": self.stdout_fault, "clock_extra_s": self.clock_extra_s, "as_limit": self.as_limit, "log_hard": self.log_hard})
+               "log_path": self.log_path, "clock": self.clock, "plan": self.plan, "stale_log": self.stale_log, "hash_seed": self.hash_seed, "stdout_fault": self.stdout_fault, "clock_extra_s": self.clock_extra_s, "as_limit": self.as_limit, "log_hard": self.log_hard, "deleted_cwd": self.deleted_cwd})
     }
     pub fn from_json(v: &Value) -> Option<CaseB> {
         Some(CaseB {
@@ -258,6 +260,7 @@ impl CaseB {
             clock_extra_s: v.get("clock_extra_s").and_then(|c| c.as_i64()),
             as_limit: v.get("as_limit").and_then(|c| c.as_u64()),
             log_hard: v.get("log_hard").and_then(|c| c.as_str()).map(|s| s.to_string()),
+            deleted_cwd: v.get("deleted_cwd").and_then(|c| c.as_bool()).unwrap_or(false),
         })
     }
 }
@@ -300,6 +303,7 @@ pub fn check_b(case: &CaseB) -> Result<Option<ObsB>, (String, String)> {
     };
     // without any memory flag
     let mut plain = Child::new(case.profile, &[case.action.as_str(), input]);
+    plain.deleted_cwd = case.deleted_cwd;
     plain.shim = Some(ShimCfg { seed: case.hash_seed, plan: case.stdout_fault.clone().unwrap_or_default(), as_limit: case.as_limit, ..Default::default() });
     let p = run_child(&dir, &plain);
     children += 1;
@@ -316,6 +320,7 @@ pub fn check_b(case: &CaseB) -> Result<Option<ObsB>, (String, String)> {
         std::fs::write(&path, old).unwrap();
     }
     let mut flagged = Child::new(case.profile, &args);
+    flagged.deleted_cwd = case.deleted_cwd;
     let full_plan = match &case.stdout_fault { Some(sf) if case.plan.is_empty() => sf.clone(), Some(sf) => format!("{};{}", case.plan, sf), None => case.plan.clone() };
     let mut full_plan = full_plan;
     if let Some(lh) = &case.log_hard {
@@ -439,6 +444,7 @@ fn minimise_b(case: &CaseB, oracle: &str) -> CaseB {
     if best.stdout_fault.is_some() { let mut c = best.clone(); c.stdout_fault = None; if still(&c) { best = c; } }
     if best.clock_extra_s.is_some() { let mut c = best.clone(); c.clock_extra_s = None; if still(&c) { best = c; } }
     if best.as_limit.is_some() { let mut c = best.clone(); c.as_limit = None; if still(&c) { best = c; } }
+    if best.deleted_cwd { let mut c = best.clone(); c.deleted_cwd = false; if still(&c) { best = c; } }
     if best.size_mb.is_some() { let mut c = best.clone(); c.size_mb = None; if still(&c) { best = c; } }
     if best.action != "run" { let mut c = best.clone(); c.action = "run".into(); if still(&c) { best = c; } }
     if let ProgSpec::Stmts(stmts) = &best.spec {
@@ -646,6 +652,7 @@ pub fn run(seed: u64, tier: &str, ev: &mut Evidence) -> Vec<Violation> {
             clock_extra_s: None,
             as_limit: None,
             log_hard: None,
+            deleted_cwd: rng.below(12) == 0,
         };
         let mut case = case;
         match i % 11 {
